@@ -310,11 +310,108 @@ def interpolate_guard(report, ntargets=2):
             report.harness_errors.append(f'interpolate guard: symbolic path ({raised}) not reproduced: {model}')
 
 
+def psi4lm_geometry(report):
+    """Psi4_lm with a symbolic centre and radius (the interpolator and the decomposition are stubbed and record their arguments):
+    the grid handed to the interpolator is (x - c0, y - c1, z - c2) axis by axis, the sample points are
+    r (sin th cos ph, sin th sin ph, cos th) on the angular grid handed to the decomposition, the weights are sin(th) dth, dph."""
+    from aurel.core import AurelCore
+    from aurel.finitedifference import FiniteDifference
+    from aurel import core as acore
+    param = {'xmin': -2.0, 'ymin': -1.5, 'zmin': -1.0, 'dx': 1.0, 'dy': 0.75, 'dz': 0.5, 'Nx': 5, 'Ny': 5, 'Nz': 5}
+    fd = FiniteDifference(param, verbose=False)
+    rel = AurelCore(fd, verbose=False)
+    cs = [sym('cen0'), sym('cen1'), sym('cen2')]
+    rad = sym('rad')
+    rel.center = list(cs)
+    rel.extract_radii = [rad]
+    rel.lmax = 2
+    rel.data['Weyl_Psi'] = [np.zeros(fd.x.shape, dtype=complex) for _ in range(5)]
+    calls = []
+
+    class Num:
+        @staticmethod
+        def interpolate(values, grid, points, method=None):
+            calls.append((grid, points))
+            return np.zeros(np.shape(points[0]))
+
+    class Mth:
+        def __getattr__(self, nm):
+            return getattr(real_maths, nm)
+
+        @staticmethod
+        def sYlm_coefficients(s_, lmax_, f_, theta, phi, wth, dphi):
+            calls.append(('coef', s_, lmax_, theta, phi, wth, dphi))
+            return {}
+    real_num, real_maths = acore.numerical, acore.maths
+    acore.numerical, acore.maths = Num, Mth()
+    probs = []
+    try:
+        c = Ctx(pre=[tm.lt(tm.ZERO, rad.t)], fork=False)
+        with use_ctx(c):
+            rel['Psi4_lm']
+    except Exception as e:  # noqa
+        probs.append(f'Psi4_lm raised {type(e).__name__}: {e}'[:200])
+    finally:
+        acore.numerical, acore.maths = real_num, real_maths
+    obs = []
+    if not probs:
+        grids = [g for g in calls if len(g) == 2]
+        coef = [g for g in calls if g and g[0] == 'coef']
+        if len(grids) != 2 or len(coef) != 1:
+            probs.append(f'expected 2 interpolations and 1 decomposition per radius, got {len(grids)} / {len(coef)}')
+        else:
+            _, s_, lmax_, theta, phi, wth, dphi = coef[0]
+            if s_ != -2 or lmax_ != 2:
+                probs.append(f'decomposition called with spin {s_}, lmax {lmax_}')
+            axes = [fd.xarray, fd.yarray, fd.zarray]
+            for grid, pts in grids:
+                for k in range(3):
+                    for j in range(len(axes[k])):
+                        obs.append(Ob(f'Psi4_lm: interpolation grid axis {k} node {j} == axis - center[{k}]', grid[k][j], axes[k][j] - cs[k],
+                                      c.pre, group='Psi4_lm geometry (symbolic centre and radius)'))
+                want = [rad * np.sin(theta) * np.cos(phi), rad * np.sin(theta) * np.sin(phi), rad * np.cos(theta)]
+                for k in range(3):
+                    for idx in ((0, 0), (1, 2), (theta.shape[0] - 1, theta.shape[1] - 1)):
+                        obs.append(Ob(f'Psi4_lm: sphere point component {k} at angular node {idx}', pts[k][idx], want[k][idx], c.pre,
+                                      group='Psi4_lm geometry (symbolic centre and radius)', tol=1e-12))
+            dth = float(theta[1, 0] - theta[0, 0])
+            dph = float(phi[0, 1] - phi[0, 0])
+            if not np.allclose(wth, np.sin(theta) * dth) or not np.isclose(float(dphi), dph):
+                probs.append('quadrature weights are not sin(theta) dtheta, dphi of the angular grid handed over')
+            if not (np.isclose(theta.shape[0] * dth, np.pi) and np.isclose(phi.shape[1] * dph, 2 * np.pi)):
+                probs.append('angular cells do not tile [0, pi] x [0, 2 pi]')
+    for p_ in probs:
+        report.violation('Psi4_lm geometry', p_, report.write_replay('psi4lm_geometry', dict(problem=p_)))
+    return obs
+
+
+def replay_psi4lm_center():
+    """float replay: a field linear in z decomposed around two centres that differ in c2 only must change its (l=1) content;
+    around centres that differ in c1 only it must not (the field does not depend on y)"""
+    from aurel.core import AurelCore
+    from aurel.finitedifference import FiniteDifference
+    param = {'xmin': -4.0, 'ymin': -4.0, 'zmin': -4.0, 'dx': 0.5, 'dy': 0.5, 'dz': 0.5, 'Nx': 17, 'Ny': 17, 'Nz': 17}
+    fd = FiniteDifference(param, verbose=False)
+
+    def run(center):
+        rel = AurelCore(fd, verbose=False)
+        rel.center = list(center)
+        rel.extract_radii = [1.5]
+        rel.lmax = 2
+        rel.data['Weyl_Psi'] = [np.zeros(fd.x.shape, dtype=complex) for _ in range(4)] + [(fd.z + 0.0) * (1.0 + 0j)]
+        out = rel['Psi4_lm'][1.5]
+        return np.array([out[k] for k in sorted(out)])
+    a, b, c_ = run((0.0, 0.0, 0.0)), run((0.0, 0.5, 0.0)), run((0.0, 0.0, 0.5))
+    dy, dz = float(np.max(np.abs(a - b))), float(np.max(np.abs(a - c_)))
+    return dict(change_when_center_y_moves=dy, change_when_center_z_moves=dz, reproduces=(dy > 1e-6 or dz < 1e-6))
+
+
 def main(report, tier, seed, workers, calibrate=False):
     lmax = 3 if tier == 'quick' else 4
     report.bounds = dict(spin_weights=[-2, -1, 0, 1, 2], lmax=lmax, claim='orthonormality in l for equal m (theta integral exact); '
                          'orthogonality for different m is the Fourier orthogonality of exp(i m phi) - textbook, not a solver result',
-                         outside=['quadrature in sYlm_coefficients / Psi4_lm (midpoint rule: correct only in the limit)',
+                         psi4lm='geometry only: grid shift by the centre, sample points, weights and tiling of the angular grid (symbolic centre and radius)',
+                         outside=['accuracy of the midpoint quadrature in sYlm_coefficients / Psi4_lm (correct only in the limit)',
                                   "scipy's RegularGridInterpolator (exactness at nodes / on trilinear fields)", 'convergence of the extracted mode',
                                   'l > lmax'])
     report.assumptions += ['cos(theta/2), sin(theta/2) >= 0 atoms with c^2+s^2 = 1; exp(i m phi) a unit complex atom pair; np.pi an atom in (3, 4)',
@@ -327,6 +424,7 @@ def main(report, tier, seed, workers, calibrate=False):
         rec = reconstruct_obligations(values, pre)
         small_parts(report)
         interpolate_guard(report, ntargets=1 if tier == 'quick' else 2)
+        geo = psi4lm_geometry(report)
     report.functions |= ft.seen
     report.extra['source_sha1'] = source_digest(FILES)
     from .common import vacuity
@@ -335,7 +433,19 @@ def main(report, tier, seed, workers, calibrate=False):
     rec = [o for o in rec if not isinstance(o, tuple)]
     for _, msg in errors:
         report.violation('sYlm_reconstruct', msg, report.write_replay('reconstruct', dict(error=msg)))
-    discharge(obs + rec, timeout_s=60 if tier == 'quick' else 300, workers=workers)
+    discharge(obs + rec + geo, timeout_s=60 if tier == 'quick' else 300, workers=workers)
+    geo_bad = [ob for ob in geo if ob.result['verdict'] == 'sat']
+    for ob in geo:
+        report.record_ob(ob)
+        if ob.result['verdict'] == 'unknown':
+            report.inconc(ob.name, 'not settled')
+    if geo_bad:
+        rp = replay_psi4lm_center()
+        if rp['reproduces']:
+            report.violation('Psi4_lm geometry', f"{geo_bad[0].name} fails for a symbolic centre (model {geo_bad[0].result.get('model')}); float replay with a "
+                             f"field linear in z: {rp}", report.write_replay('psi4lm_center', dict(obligation=geo_bad[0].name, replay=rp)))
+        else:
+            report.harness_errors.append(f'{geo_bad[0].name}: solver model does not reproduce on floats: {rp}')
     for ob in obs + rec:
         report.record_ob(ob)
         r = ob.result
